@@ -669,6 +669,12 @@ func (c *Ctx) c10TsInverse() {
 					good = oka && okb && ca.Cmp(big.NewRat(1000000000, 1)) == 0 && cb.Cmp(ca) == 0
 				}
 			}
+			// time.Unix(0, ns) normalises the nanoseconds itself (same truncated division and borrow): the same instant
+			if !good && v.Kind == pw.KCall && v.Ev.Role == "Std:time.Unix" && len(v.Ev.Args) == 2 && v.Ev.Args[1].Kind == pw.KParam {
+				if c0, isC := poly.Of(v.Ev.Args[0], nil).IsConst(); isC && c0.Sign() == 0 {
+					good = true
+				}
+			}
 			if !good {
 				ok = false
 			}
